@@ -235,10 +235,24 @@ def _lrepr_bool(o: bool, **_) -> str:
     return repr(o).lower()
 
 
+_BYTES_ESCAPES = {
+    ord('"'): '\\"',
+    ord("\\"): "\\\\",
+    ord("\n"): "\\n",
+    ord("\r"): "\\r",
+    ord("\t"): "\\t",
+}
+
+
 @lrepr.register(bytes)
 def _lrepr_bytes(o: bytes, **_) -> str:
-    v = repr(o)
-    return f'#b "{v[2:-1]}"'
+    # Python's repr() picks its quote character by content, leaving '"' unescaped
+    # or escaping "'" -- neither of which the reader reads back as the same byte.
+    v = "".join(
+        _BYTES_ESCAPES.get(b) or (chr(b) if 0x20 <= b < 0x7F else f"\\x{b:02x}")
+        for b in o
+    )
+    return f'#b "{v}"'
 
 
 @lrepr.register(type(None))
